@@ -217,7 +217,7 @@ PROPS = {
     ),
 }
 
-KANI_PROPS = ["C01", "C02", "C05", "C08", "C10", "C13", "C14", "C18", "C19"]
+KANI_PROPS = ["C01", "C02", "C05", "C06", "C08", "C09", "C10", "C13", "C14", "C18", "C19"]
 
 NOT_APPLICABLE = {
     "C03": "analytic convergence-rate theorem over unbounded float histories; no per-call contract expresses it",
